@@ -80,6 +80,24 @@ pub enum Driver {
     /// `write!(s, "[{:>w$}]{}{:?}", text, 'c', 'd')`: padding, `char` arguments and Debug quotes reach the
     /// writer through `fmt::Write::write_char`; the bytes offered are what std's formatting produces
     FmtPad,
+    /// two calls on the same stream: `write_all(input[..cut])` then `write_all(input[cut..])` - whatever the first call
+    /// left behind after an error must not leak into the second
+    TwoWriteAll(usize),
+    /// the same with `write!(s, "{}", ..)` calls (with an argument, so that the formatting shim is used)
+    TwoFmt(usize),
+    /// `write!` of a value whose `Display` writes input[..cut], IGNORES a failure, writes input[cut..] and then
+    /// returns the first failure ("always emit the closing reset"): the inner error must still arrive with its kind
+    FmtStubborn(usize),
+}
+
+/// see `Driver::FmtStubborn`
+struct Stubborn<'a>(&'a str, &'a str);
+impl std::fmt::Display for Stubborn<'_> {
+    fn fmt(&self, f: &mut std::fmt::Formatter<'_>) -> std::fmt::Result {
+        let first = f.write_str(self.0);
+        let second = f.write_str(self.1);
+        first.and(second)
+    }
 }
 
 /// what `Driver::FmtPad` offers for a given text
@@ -251,6 +269,143 @@ pub fn run_case(mode: Mode, input: &[u8], driver: Driver, script: Script) -> (Re
                 check_delivered(mode, input, input.len(), &sh, "at the end of the protocol")?;
                 Ok(())
             }
+            Driver::TwoWriteAll(cut) | Driver::TwoFmt(cut) => {
+                let mut strip_s;
+                let mut auto_s;
+                let stream: &mut dyn Write = match mode {
+                    Mode::Strip => {
+                        strip_s = anstream::StripStream::new(boxed);
+                        &mut strip_s
+                    }
+                    Mode::PassAnsi => {
+                        auto_s = anstream::AutoStream::always_ansi(boxed);
+                        &mut auto_s
+                    }
+                    Mode::PassAlways => {
+                        auto_s = anstream::AutoStream::always(boxed);
+                        &mut auto_s
+                    }
+                };
+                let (a, b) = input.split_at(cut);
+                // model states the stream may be in before the second call: after all of `a`, or - when the first call
+                // failed, where it stopped is unspecified - after any prefix of it
+                let mut before_second: Vec<StripModel> = vec![];
+                let mut delivered_before = 0usize;
+                for (which, part) in [("first", a), ("second", b)] {
+                    begin_call(&sh);
+                    let res = if matches!(driver, Driver::TwoFmt(_)) {
+                        let t = std::str::from_utf8(part).map_err(|_| "machinery: fragment not UTF-8".to_string())?;
+                        write!(stream, "{}", t)
+                    } else {
+                        stream.write_all(part)
+                    };
+                    let (errs, zero) = {
+                        let s = sh.borrow();
+                        (s.call_errors.clone(), s.call_zero)
+                    };
+                    let fatal: Vec<ErrorKind> = errs.iter().copied().filter(|k| *k != ErrorKind::Interrupted).collect();
+                    let new: Vec<u8> = sh.borrow().accepted[delivered_before..].to_vec();
+                    delivered_before = sh.borrow().accepted.len();
+                    let starts: Vec<StripModel> = if which == "first" { vec![StripModel::default()] } else { before_second.clone() };
+                    match res {
+                        Ok(()) => {
+                            if !fatal.is_empty() {
+                                return Err(format!("{which} call: inner error {:?} was turned into success", fatal[0]));
+                            }
+                            let ok = if mode == Mode::Strip {
+                                starts.iter().any(|m| {
+                                    let mut m = *m;
+                                    m.check_output(part, &new).is_ok()
+                                })
+                            } else {
+                                new == part
+                            };
+                            if !ok {
+                                return Err(format!(
+                                    "{which} call returned Ok(()) for {} but the inner writer received {} during it, which differs from what this call had to deliver{}",
+                                    show(part),
+                                    show(&new),
+                                    if which == "second" { format!(" (the first call, for {}, had returned an error or success as scripted)", show(a)) } else { String::new() }
+                                ));
+                            }
+                            if which == "first" {
+                                let mut m = StripModel::default();
+                                let _ = m.expected_exact(a);
+                                before_second = vec![m];
+                            }
+                        }
+                        Err(e) => {
+                            let allowed = errs.contains(&e.kind()) || (zero && e.kind() == ErrorKind::WriteZero);
+                            if !allowed {
+                                return Err(format!("{which} call returned error kind {:?} but the inner writer raised {:?} (accepted zero bytes: {zero})", e.kind(), errs));
+                            }
+                            let ok = if mode == Mode::Strip { starts.iter().any(|m| m.output_of_some_prefix(part, &new)) } else { part.starts_with(&new) };
+                            if !ok {
+                                return Err(format!(
+                                    "{which} call: after Err({:?}) the inner writer received {} during the call, which is not the stripped form of any prefix of {} and differs from anything this call may deliver",
+                                    e.kind(),
+                                    show(&new),
+                                    show(part)
+                                ));
+                            }
+                            if which == "first" {
+                                before_second = (0..=a.len())
+                                    .map(|r| {
+                                        let mut m = StripModel::default();
+                                        let _ = m.expected_exact(&a[..r]);
+                                        m
+                                    })
+                                    .collect();
+                                before_second.dedup();
+                            }
+                        }
+                    }
+                }
+                Ok(())
+            }
+            Driver::FmtStubborn(cut) => {
+                let mut strip_s;
+                let mut auto_s;
+                let stream: &mut dyn Write = match mode {
+                    Mode::Strip => {
+                        strip_s = anstream::StripStream::new(boxed);
+                        &mut strip_s
+                    }
+                    Mode::PassAnsi => {
+                        auto_s = anstream::AutoStream::always_ansi(boxed);
+                        &mut auto_s
+                    }
+                    Mode::PassAlways => {
+                        auto_s = anstream::AutoStream::always(boxed);
+                        &mut auto_s
+                    }
+                };
+                let a = std::str::from_utf8(&input[..cut]).map_err(|_| "machinery: fragment not UTF-8".to_string())?;
+                let b = std::str::from_utf8(&input[cut..]).map_err(|_| "machinery: fragment not UTF-8".to_string())?;
+                begin_call(&sh);
+                let res = write!(stream, "{}", Stubborn(a, b));
+                let (errs, zero) = {
+                    let s = sh.borrow();
+                    (s.call_errors.clone(), s.call_zero)
+                };
+                let fatal: Vec<ErrorKind> = errs.iter().copied().filter(|k| *k != ErrorKind::Interrupted).collect();
+                match res {
+                    Ok(()) => {
+                        if !fatal.is_empty() {
+                            return Err(format!("inner error {:?} was turned into success", fatal[0]));
+                        }
+                        check_delivered(mode, input, input.len(), &sh, "after Ok(())")
+                    }
+                    Err(e) => {
+                        // what reaches the inner writer after the failed piece is the Display impl's doing; only the kind is checked
+                        let allowed = errs.contains(&e.kind()) || (zero && e.kind() == ErrorKind::WriteZero);
+                        if !allowed {
+                            return Err(format!("returned error kind {:?} but the inner writer raised {:?} (accepted zero bytes: {zero})", e.kind(), errs));
+                        }
+                        Ok(())
+                    }
+                }
+            }
             Driver::WriteAll | Driver::WriteFmt(_) | Driver::FmtLiteral(_) | Driver::FmtPad => {
                 let mut strip_s;
                 let mut auto_s;
@@ -346,6 +501,11 @@ pub fn drivers_for(tokens: &[usize]) -> Vec<Driver> {
     }
     for &c in &bounds {
         d.push(Driver::WriteFmt(c));
+        if c > 0 && c < input.len() {
+            d.push(Driver::TwoWriteAll(c));
+            d.push(Driver::TwoFmt(c));
+            d.push(Driver::FmtStubborn(c));
+        }
     }
     // vectored: every pair of byte positions a <= b (cuts may fall inside "é")
     for a in 0..=input.len() {
@@ -388,6 +548,12 @@ pub fn parse_driver(s: &str) -> Driver {
         Driver::FmtPad
     } else if s.starts_with("FmtLiteral") {
         Driver::FmtLiteral(nums[0])
+    } else if s.starts_with("TwoWriteAll") {
+        Driver::TwoWriteAll(nums[0])
+    } else if s.starts_with("TwoFmt") {
+        Driver::TwoFmt(nums[0])
+    } else if s.starts_with("FmtStubborn") {
+        Driver::FmtStubborn(nums[0])
     } else if s.starts_with("WriteAll") {
         Driver::WriteAll
     } else {
@@ -410,6 +576,9 @@ pub fn driver_label(mode: Mode, driver: Driver) -> String {
         Driver::WriteFmt(_) => "write_fmt".to_string(),
         Driver::FmtLiteral(_) => "write_fmt-literal".to_string(),
         Driver::FmtPad => "write_fmt-padding-and-chars".to_string(),
+        Driver::TwoWriteAll(_) => "write_all; write_all".to_string(),
+        Driver::TwoFmt(_) => "write_fmt; write_fmt".to_string(),
+        Driver::FmtStubborn(_) => "write_fmt-display-continues-after-error".to_string(),
     };
     format!("{m}/{d}")
 }
@@ -442,7 +611,7 @@ pub fn sweep(mode: Mode, maxlen: usize, k_of: &(dyn Fn(usize) -> usize + Sync)) 
     cases.par_iter().for_each(|(input, ntoks, drivers)| {
         for &driver in drivers {
             let k = k_of(*ntoks);
-            let kk = if matches!(driver, Driver::Vectored(..)) && *ntoks > 4 { k - 1 } else { k };
+            let kk = if matches!(driver, Driver::Vectored(..) | Driver::TwoWriteAll(_) | Driver::TwoFmt(_) | Driver::FmtStubborn(_)) && *ntoks > 4 { k - 1 } else { k };
             let st = vexplore::scripts::enumerate(kk, |s| {
                 let r = match guard(|| run_case(mode, input, driver, s.clone())) {
                     Ok((r, script)) => {
@@ -544,13 +713,18 @@ pub fn large_sweep(mode: Mode, sizes: &[usize], k_of: &(dyn Fn(usize) -> usize +
                 if let Err(m) = r {
                     let mut v = viol.lock().unwrap();
                     if v.len() < 100 {
+                        // the answers after the last deviation are all "accept everything": not part of the case
+                        let mut choices = s.choices();
+                        while choices.last() == Some(&0) {
+                            choices.pop();
+                        }
                         let short: String = if m.len() > 700 { format!("{} ... {}", m.chars().take(400).collect::<String>(), m.chars().rev().take(250).collect::<Vec<_>>().into_iter().rev().collect::<String>()) } else { m.clone() };
                         v.push(Finding {
                             system: format!("{}/large", driver_label(mode, driver)),
                             clause: clause_of(&m),
-                            case: vec![format!("{n} bytes, unit shifted by {shift}"), format!("{driver:?}"), format!("script{:?}", s.choices())],
+                            case: vec![format!("{n} bytes, unit shifted by {shift}"), format!("{driver:?}"), format!("script{:?}", choices)],
                             message: short,
-                            replay: serde_json::json!({"kind":"large","mode":format!("{mode:?}"),"n":n,"shift":shift,"driver":format!("{driver:?}"),"script":s.choices()}),
+                            replay: serde_json::json!({"kind":"large","mode":format!("{mode:?}"),"n":n,"shift":shift,"driver":format!("{driver:?}"),"script":choices}),
                         });
                     }
                     return false;
